@@ -92,15 +92,14 @@ fn lex_hostport(source: &[char]) -> Option<usize> {
     let hostname_end = lex_hostname(source)?;
 
     if source.get(hostname_end) == Some(&':') {
+        // The port is the run of digits after the colon.
+        let port_start = hostname_end + 1;
+
         Some(
-            source
+            source[port_start..]
                 .iter()
-                .enumerate()
-                .find(|(_, c)| !{
-                    let c = **c;
-                    c.is_ascii_digit()
-                })
-                .map(|(i, _)| i)
+                .position(|c| !c.is_ascii_digit())
+                .map(|i| port_start + i)
                 .unwrap_or(source.len()),
         )
     } else {
